@@ -318,21 +318,43 @@ func (c *compiler) evalUpdateIndex(left, index, value interface{}) error {
 	rv := reflect.ValueOf(left)
 	switch rv.Kind() {
 	case reflect.Map:
-		rv.SetMapIndex(reflect.ValueOf(index), reflect.ValueOf(value))
+		keyType, elemType := rv.Type().Key(), rv.Type().Elem()
+		switch {
+		case rv.IsNil():
+			err = fmt.Errorf("cannot assign to an entry of a nil map (%T)", left)
+		case index == nil || !reflect.TypeOf(index).AssignableTo(keyType):
+			err = fmt.Errorf("cannot use '%v' (%T) as %s value in map index", index, index, keyType)
+		case !reflect.TypeOf(index).Comparable():
+			err = fmt.Errorf("cannot use '%v' (%T) as a map index: the type is not comparable", index, index)
+		case value == nil:
+			// nil is the zero value of the element type
+			rv.SetMapIndex(reflect.ValueOf(index), reflect.Zero(elemType))
+		case !reflect.TypeOf(value).AssignableTo(elemType):
+			err = fmt.Errorf("cannot use '%v' (%T) as %s value in assignment", value, value, elemType)
+		default:
+			rv.SetMapIndex(reflect.ValueOf(index), reflect.ValueOf(value))
+		}
 	case reflect.Array, reflect.Slice:
 		if i, ok := index.(int); ok {
-			if rv.Len()-1 < i {
+			if i < 0 || rv.Len()-1 < i {
 				err = fmt.Errorf("array index out of bounds, got index %d, while array size is %v", i, rv.Len())
+			} else if !rv.Index(i).CanSet() {
+				err = fmt.Errorf("cannot assign to an element of %T: the value is not addressable", left)
 			} else {
 				elemType := reflect.TypeOf(left).Elem()
+				nv := reflect.ValueOf(value)
+				if value == nil {
+					// nil is the zero value of the element type
+					nv = reflect.Zero(elemType)
+				}
 				if elemType.Kind() != reflect.Interface {
-					t := reflect.ValueOf(value).Type()
+					t := nv.Type()
 					if elemType != t {
 						err = fmt.Errorf("cannot use '%v' (untyped %s constant) as %s value in assignment", value, t, elemType)
 					}
 				}
 				if err == nil {
-					rv.Index(i).Set(reflect.ValueOf(value))
+					rv.Index(i).Set(nv)
 				}
 			}
 		} else {
@@ -351,12 +373,24 @@ func (c *compiler) evalAccessIndex(left, index interface{}, node *ast.IndexExpre
 	rv := reflect.ValueOf(left)
 	switch rv.Kind() {
 	case reflect.Map:
+		if index == nil {
+			return nil, fmt.Errorf("cannot use nil as %s value in map index", rv.Type().Key())
+		}
+
 		mapKeyType := reflect.TypeOf(left).Key().Kind()
 		keyType := reflect.TypeOf(index).Kind()
 		if mapKeyType != reflect.Interface &&
 			keyType != mapKeyType {
 			err = fmt.Errorf("cannot use %v (%s constant) as %s value in map index", index, keyType.String(), mapKeyType.String())
 			return nil, err
+		}
+
+		if !reflect.TypeOf(index).AssignableTo(rv.Type().Key()) {
+			return nil, fmt.Errorf("cannot use %v (%T) as %s value in map index", index, index, rv.Type().Key())
+		}
+
+		if !reflect.TypeOf(index).Comparable() {
+			return nil, fmt.Errorf("cannot use %v (%T) as a map index: the type is not comparable", index, index)
 		}
 
 		val := rv.MapIndex(reflect.ValueOf(index))
@@ -371,7 +405,7 @@ func (c *compiler) evalAccessIndex(left, index interface{}, node *ast.IndexExpre
 		}
 	case reflect.Array, reflect.Slice:
 		if i, ok := index.(int); ok {
-			if rv.Len()-1 < i {
+			if i < 0 || rv.Len()-1 < i {
 				err = fmt.Errorf("array index out of bounds, got index %d, while array size is %d", index, rv.Len())
 			} else {
 
